@@ -349,6 +349,11 @@ class Check:
 
     def finish(self):
         wall = time.time() - self.t0
+        # the rule names what is enumerated and what counts as non-trivial; the families and parts actually judged in this run are listed
+        # after it from the run itself, so that the description cannot fall behind the check
+        parts = [k for k, v in (self.cov.get("parts") or {}).items() if isinstance(v, dict)]
+        if parts and self.cov.get("rule") and "Parts of this run:" not in self.cov["rule"]:
+            self.cov["rule"] += "  Parts of this run: " + "; ".join(parts) + "."
         ev = {"property_id": self.pid, "tier": self.tier, "seed": seed(), "level": self.level,
               "coverage": self.cov, "assumptions": self.assumptions, "wall_s": round(wall, 1),
               "violations": len(self.violations),
